@@ -38,7 +38,7 @@ IRIS = ["http://ex.org/s1", "http://ex.org/s2", "http://ex.org/ns/o1", "http://e
         "http://other.org/v#frag", "http://ex.org/C", "http://ex.org/ns/D"]
 PREDS = ["http://ex.org/p1", "http://ex.org/ns/p2", RDF_TYPE, BASE + "relp", "http://other.org/v#q"]
 BNODES = ["_:b1", "_:b2", "_:x_1"]
-PIECES = ["a", "b c", "#", " # x", ";", " ; ", ",", " , ", ".", " . ", '\\"', "\\\\", "'", "@", "^^", "<", ">", "é", "\\n", "xsd:", "1"]
+PIECES = ["a", "b c", "#", " # x", ";", " ; ", ",", " , ", ".", " . ", '\\"', "\\\\", "'", "@", "^^", "<", ">", "é", "\\n", "xsd:", "1", "\u2028", "\u0085"]
 SPECIAL_PIECES = set(PIECES) - {"a", "b c", "1", "é"}
 # datatype spellings: (text after the closing quote, datatype iri, needs prefix)
 DTYPES = [("", XSD_STRING, None), ("@en", LANGSTRING, None), ("@en-GB", LANGSTRING, None),
